@@ -13,7 +13,7 @@ static N_OBJECTS: AtomicUsize = AtomicUsize::new(2);
 
 const NSEC: &[&str] = &["1-section", "2-sections", "3-sections"];
 const FORMAT: &[&str] = &["table", "stream"];
-const SPLIT: &[&str] = &["runs", "per-entry"];
+const SPLIT: &[&str] = &["runs", "per-entry", "per-entry-descending"];
 const STATE: &[&str] = &["absent", "direct", "compressed", "free"];
 const ROOT: &[&str] = &["root-unchanged", "own-root"];
 const GROW: &[&str] = &["no-new-object", "new-object-6"];
@@ -148,7 +148,11 @@ pub fn history_case(ch: &mut Chooser, t: &mut Tally) {
         let id = format!("id-of-section-{}", sec);
         last_id = id.clone().into_bytes();
         let extra = [("Root", Val::r(root_nr)), ("ID", Val::Array(vec![Val::str(&id), Val::str(&id)]))];
-        let sp = if split == 0 { Split::Runs } else { Split::PerEntry };
+        let sp = match split {
+            0 => Split::Runs,
+            1 => Split::PerEntry,
+            _ => Split::PerEntryDescending,
+        };
         if format == 0 {
             fb.finish_table(&extra, sp);
         } else {
